@@ -502,6 +502,9 @@ def facet_hole_types(F, X):
         m = re.match(r"^\s*(\w+): Some\(\{\}\)", ev.skeleton())
         if m and m.group(1) in helper and len(ev.holes()) == 1:
             ty = (ev.holes()[0][2] or "?").replace("&", "").strip()
+            nt = og.numeric_text_type(ev.holes()[0][0], _ce(X))
+            if nt is not None:
+                ty = nt   # the decimal text of a parsed number of that type
             out.append((m.group(1), helper[m.group(1)], ty, ev))
     return out
 
@@ -663,7 +666,7 @@ def facet_table(ck, F, X):
             continue
         for (src, ev) in rows:
             for (nf, tr, ty) in ev.holes():
-                t = ty.replace("&", "").strip()
+                t = og.numeric_text_type(nf, _ce(X)) or ty.replace("&", "").strip()
                 if t in ("i8", "i16", "i32", "i64", "i128", "u8", "u16", "u32", "u64", "u128", "usize", "isize"):
                     ck.ok("R6", f"{hf}:typed", ev.site, f"`{hf}` literal is emitted from a value of type {t}")
                 else:
